@@ -180,20 +180,19 @@ func (r *runner) http(st Step) {
 	switch kind {
 	case "notpost":
 		method = []string{"GET", "PUT", "DELETE"}[len(h)%3]
-	case "badtype":
-		ctype = "text/plain"
-	case "badcharset":
-		ctype = "application/json; charset=latin1"
+	case "badtype": // not JSON (an absent header included)
+		ctype = []string{"text/plain", "application/jsonx", "application/xml; charset=utf-8", "", "json", "text/json"}[(len(h)+len(st.Mem))%6]
+	case "badcharset": // JSON in another character set
+		ctype = []string{"application/json; charset=latin1", "application/json; charset=utf-16", "application/json;charset=us-ascii", `application/json; charset="iso-8859-1"`}[(len(h)+len(st.Mem))%4]
 	case "garbage":
 		body = `{"jsonrpc":"2.0",`
 	case "trailing": // a complete, well-formed message followed by more bytes: the body as a whole is not valid JSON
 		body += []string{"]", " garbage", body, ","}[len(st.Mem)%4]
 	case "emptyarr":
 		body = `[]`
-	case "ok":
-		if len(h)%2 == 0 {
-			ctype = "application/json; charset=utf-8"
-		}
+	case "ok": // every spelling of "JSON in UTF-8"
+		ctype = []string{"application/json", "application/json; charset=utf-8", "application/json;charset=utf8", "Application/JSON", `application/json; charset="utf-8"`,
+			"application/json; foo=bar"}[(len(h)+len(body))%6]
 	}
 	if abs == nil {
 		abs = []any{}
